@@ -14,9 +14,7 @@ impl <T: ArrayElement> std::fmt::Display for Array<T> {
 fn build_string<T: ArrayElement>(arr: &Array<T>, precision: Option<usize>, alternate: bool, prefix: usize) -> String {
     if arr.is_empty().unwrap_or(true) {
         "[]".to_string()
-    } else if arr.len().unwrap_or(0) == 1 {
-        format!("[{}]", arr.get_elements().unwrap()[0])
-    } else if arr.ndim().unwrap_or(0) == 1 {
+    } else if arr.ndim().unwrap_or(0) <= 1 {
         let elements = arr.get_elements().unwrap().into_iter()
             .map(|e| format_with_precision(&e, precision))
             .collect::<Vec<String>>()
